@@ -345,6 +345,7 @@ const basePrelude = `(set-logic ALL)
 (define-fun tmod ((x Int) (y Int)) Int (- x (* y (tdiv x y))))
 (assert (forall ((s Str)) (! (>= (strlen s) 0) :pattern ((strlen s)))))
 (assert (= (strlen str!empty) 0))
+(assert (= (epoch null) (- 1)))
 (assert (forall ((s Str)) (! (=> (= (strlen s) 0) (= s str!empty)) :pattern ((strlen s)))))
 (assert (forall ((b Bytes)) (! (>= (byteslen b) 0) :pattern ((byteslen b)))))
 (assert (forall ((b Bytes)) (! (= (bytes.ofstr (str.ofbytes b)) b) :pattern ((str.ofbytes b)))))
@@ -359,3 +360,17 @@ const basePrelude = `(set-logic ALL)
 (assert (forall ((a Real) (b Real)) (! (and (= (= (f64.sub a b) 0.0) (= a b)) (= (< (f64.sub a b) 0.0) (< a b))) :pattern ((f64.sub a b)))))
 (assert (forall ((x Int)) (! (=> (and (<= (- 9007199254740992) x) (<= x 9007199254740992)) (= (f64.toint (to_real x)) x)) :pattern ((f64.toint (to_real x))))))
 `
+
+// flattenAnd splits a term into its top-level conjuncts.
+func flattenAnd(t string) []string {
+	t = strings.TrimSpace(t)
+	if !strings.HasPrefix(t, "(and ") {
+		return []string{t}
+	}
+	inner := t[5 : len(t)-1]
+	var out []string
+	for _, p := range splitSexprs(inner) {
+		out = append(out, flattenAnd(p)...)
+	}
+	return out
+}
